@@ -1,7 +1,185 @@
-"""C14 -- bounded run-time contracts on generated CAMx files (rtc/camx.py, reference codec rtc/refcodec.py)."""
+"""C14 -- uamiv __readheader under contract over an abstract file (pyvc/layout.py); bounded run-time contracts on generated CAMx files (rtc/camx.py, reference codec rtc/refcodec.py)."""
 from .common import *   # noqa
 
-CONTRACTS = []
+import os
+import z3
+from pyvc.exec import Obj, FuncRef
+from pyvc import frontend, layout
+from pyvc.arrays import AbsStr
+from pyvc.sym import is_sym
+
+UM = 'camxfiles/uamiv/Memmap.py'
+
+
+class UamivReadHeader(Contract):
+    """uamiv (memory-mapped) __readheader over an abstract file of `filesize` bytes with nspec species and symbolic nx, ny, nz:
+    * layout: the four header records end at the published offset; the structured dtype of one time block has exactly
+      4*(6 + nspec*nz*(13+nx*ny)) bytes (the word formula the code uses for the integrality test);
+    * truncation (C14): whenever it returns, the file holds a whole number of time blocks, TSTEP is that number, and the
+      file was not extended; whenever the file IS whole it returns (no spurious 'partial time output')"""
+    prop = 'C14'
+    target = UM + '::uamiv.__readheader'
+    max_paths = 300
+
+    def __init__(self, nspec, mode, whole):
+        self.nspec, self.mode, self.whole = nspec, mode, whole
+        self.name = 'uamiv.__readheader[nspec=%d,mode=%s,%s]' % (nspec, mode, 'whole file' if whole else 'any file length')
+
+    def inputs(self, ctx, I):
+        mod = frontend.load(UM)
+        node, _ = mod.find('uamiv')
+        cls = I.classref(mod, node)
+        s = Obj(cls, dict(variables={}, dimensions={}, _ncattrs=(), _operator_exclude_vars=(), _uamiv__endianprefix='>',
+                          _uamiv__rffile=AbsStr(ctx.fresh('path')), _uamiv__mode=self.mode), tag='uamiv')
+        self.nx, self.ny, self.nz = ctx.fresh('nx'), ctx.fresh('ny'), ctx.fresh('nz')
+        self.iproj = ctx.fresh('iproj')
+        self.plat = ctx.fresh('plat', 'Real')
+        ff = layout.file_fields(ctx)
+        ff['__by_name__'] = dict(nspec=self.nspec, nx=self.nx, ny=self.ny, nz=self.nz, iproj=self.iproj, plat=self.plat)
+        self.size = ctx.fresh('filesize')
+        ctx.ghost['filesize'] = self.size
+        self.nblocks = ctx.fresh('nblocks')
+        # the dtype attributes are produced by the real _make_header_fmt
+        mk, _ = mod.find('uamiv._make_header_fmt')
+        I.call_function(FuncRef(mod, mk, owner=cls, qual='uamiv._make_header_fmt').bind(s), [], {})
+        return dict(self=s)
+
+    def header_bytes(self):
+        return 312 + 68 + 24 + (40 * self.nspec + 8)
+
+    def block_bytes(self):
+        nzd = sym.max_(self.nz, 1)
+        return mul(4, add(6, mul(self.nspec * 1, mul(nzd, add(13, mul(self.nx, self.ny))))))
+
+    def requires(self, inp):
+        r = And(ge(self.nx, 1), ge(self.ny, 1), ge(self.nz, 0), ge(self.iproj, 0), le(self.iproj, 3), ge(self.size, 0),
+                Implies(eq(self.iproj, 3), Or(eq(self.plat, 90), eq(self.plat, -90))))
+        if self.mode != 'r':
+            # in the writing modes numpy.memmap EXTENDS a file that is shorter than a header record and the header
+            # fields then read as fabricated zeros; the model pins the header fields, so those cut points are left
+            # to the bounded harness (rtc/camx.py opens every prefix in r+ mode as well)
+            r = And(r, ge(self.size, self.header_bytes() - 4))
+        if self.whole:
+            r = And(r, ge(self.nblocks, 0), eq(self.size, add(self.header_bytes(), mul(self.nblocks, self.block_bytes()))))
+        return r
+
+    def ensures(self, inp, res, I):
+        s = inp['self']
+        mm = s.attrs.get('__memmap__')
+        dims = s.attrs['dimensions']
+        if not isinstance(mm, layout.StructArr) or 'TSTEP' not in dims:
+            return [('data-memmap-created', False)]
+        nt = dims['TSTEP'].attrs['_len']
+        nzd = sym.max_(self.nz, 1)
+        out = [('layout:headers-end-at-published-offset', eq(mm.offset, self.header_bytes())),
+               ('layout:block-dtype-size=word-formula', eq(mm.dt.itemsize, self.block_bytes())),
+               ('truncation:whole-number-of-blocks', And(ge(nt, 0), eq(self.size, add(self.header_bytes(), mul(nt, self.block_bytes()))))),
+               ('truncation:map-covers-exactly-the-steps', eq(mm.n, nt)),
+               ('truncation:file-not-extended', not I.ctx.ghost.get('file_extended')),
+               ('dimensions', And(eq(dims['LAY'].attrs['_len'], nzd), eq(dims['COL'].attrs['_len'], self.nx), eq(dims['ROW'].attrs['_len'], self.ny),
+                                  eq(dims['VAR'].attrs['_len'], self.nspec), eq(dims['TSTEP'].attrs['_unlimited'], True)))]
+        if self.whole:
+            out.append(('whole-file:all-steps-presented', eq(nt, self.nblocks)))
+        return out
+
+    def on_raise(self, inp, exc, I):
+        if not self.whole:
+            return [('only-ValueError-on-truncated-files (raised %s)' % exc, exc == 'ValueError'),
+                    ('truncation:file-not-extended', not I.ctx.ghost.get('file_extended'))]
+        # a whole file is never rejected: the path that raises is infeasible.  The argument is non-linear
+        # (nblocks * words == payload  =>  payload / words == nblocks), so it is staged:
+        qs = I.ctx.ghost.get('quotients') or []
+        if exc != 'ValueError' or not qs:
+            return [('whole-file-is-accepted (raised %s)' % exc, False)]
+        mc = (I.ctx.ghost.get('memmap_checks') or [None])[-1]
+        if mc is not None and mc['fact'] is not None and I.ctx.pc[-1] is mc['fact']:
+            # raised by the final numpy.memmap (no shape): the rest of the file is not a multiple of the block dtype
+            gn, gy = z3.Int('generic_n'), z3.Int('generic_y')
+            multiple = z3.Implies(gy > 0, (gn * gy) % gy == 0)
+            y, rest = mc['itemsize'], mc['rest']
+            pairs = [(gn, self.nblocks), (gy, y)]
+            l1, l2, l3 = eq(rest, mul(self.nblocks, y)), gt(y, 0), ge(self.nblocks, 0)
+            return [('lemma:rest-of-file-is-steps-times-block-bytes', l1),
+                    ('lemma:block-bytes-positive', l2),
+                    ('lemma:declared-steps-nonnegative', l3),
+                    ('lemma:a-multiple-has-remainder-zero', multiple, dict(generic=pairs)),
+                    ('lemma:numpy.memmap-raised-because-of-the-remainder', mc['cond'], dict(hyps=[mc['fact']])),
+                    ('whole-file-is-accepted (numpy.memmap raised %s)' % exc, False,
+                     dict(hyps=[l1, l2, l3, z3.substitute(multiple, *pairs), mc['cond']], generalise=[y]))]
+        q, a, b, fact = qs[-1]
+        nbr = sym.to_real(self.nblocks)
+        gq, gn, ga, gb = (z3.Real('generic_%s' % n) for n in 'qnab')
+        cancel = z3.Implies(z3.And(gq * gb == ga, gn * gb == ga, gb != 0), gq == gn)
+        l1, l2 = eq(mul(nbr, b), a), gt(b, 0)
+        pairs = [(gq, q), (gn, nbr), (ga, a), (gb, b)]
+        inst = z3.substitute(cancel, *pairs)
+        return [('lemma:declared-steps-times-block-words-is-the-payload', l1),
+                ('lemma:block-words-positive', l2),
+                ('lemma:a-quotient-is-unique', cancel, dict(generic=pairs)),
+                ('lemma:the-quotient-is-the-declared-step-count', eq(q, nbr), dict(hyps=[fact, l1, l2, inst], generalise=[b, a])),
+                ('whole-file-is-accepted (raised %s)' % exc, False, dict(hyps=[], linear=True))]
+
+    def small(self, inp):
+        return And(le(self.nx, 2), le(self.ny, 2), le(self.nz, 2), le(self.size, 2000))
+
+    # -- replay: a real file of exactly the counter-model's size and header, opened by the real reader ------------
+    def concretize(self, model, inp):
+        from pyvc.verify import model_value
+        return dict(nspec=self.nspec, mode=self.mode, whole=self.whole,
+                    **{k: model_value(model, getattr(self, k)) for k in ('nx', 'ny', 'nz', 'iproj', 'plat', 'size', 'nblocks')})
+
+    def replay(self, c):
+        import struct
+        import tempfile
+        import numpy as np
+        from rtc import refcodec
+        import_real()
+        from PseudoNetCDF.camxfiles.uamiv.Memmap import uamiv
+        nx, ny, nz, nspec, size = int(c['nx']), int(c['ny']), int(c['nz']), int(c['nspec']), int(c['size'])
+        nzd = max(nz, 1)
+        H = 312 + 68 + 24 + 40 * nspec + 8
+        B = 4 * (6 + nspec * nzd * (13 + nx * ny))
+        if size > 4000000 or B > 2000000:
+            return None
+        nsteps = max(0, (size - H) // B) + 2
+        species = ['SPC%d' % i for i in range(nspec)]
+        steps = [(2154, float(h % 24), 2154, float(h % 24 + 1)) for h in range(nsteps)]
+        data = [[[np.full((ny, nx), 1. + t + 10 * si + 100 * k, 'f') for k in range(nzd)] for si in range(nspec)] for t in range(nsteps)]
+        plat = float(fl(c['plat']) or 0.)
+        raw = bytearray(refcodec.uamiv_encode('AVERAGE', 'replay', species, nx, ny, nzd, steps, data, iproj=int(c['iproj']), plat=plat,
+                                              plon=-97., tlat1=33., tlat2=45.))
+        raw[352:356] = struct.pack('>i', nz)
+        raw = bytes(raw[:size])
+        if len(raw) != size:
+            return None
+        td = tempfile.mkdtemp(prefix='verif_c14_')
+        path = os.path.join(td, 'f.uamiv')
+        try:
+            open(path, 'wb').write(raw)
+            try:
+                f = uamiv(path, mode=c['mode'])
+            except Exception as e:
+                after = os.path.getsize(path)
+                whole = size >= H and (size - H) % B == 0
+                ok = not whole and after == size
+                return ok, dict(raised=type(e).__name__, message=str(e)[:160], file_bytes=size, header_bytes=H, block_bytes=B,
+                                size_after=after, whole_file=whole)
+            nt = len(f.dimensions['TSTEP'])
+            after = os.path.getsize(path)
+            mm = getattr(f, '__memmap__')
+            ok = (size == H + nt * B and after == size and len(f.dimensions['LAY']) == nzd and int(mm.offset) == H
+                  and int(mm.dtype.itemsize) == B and mm.shape[0] == nt)
+            detail = dict(opened=True, TSTEP=nt, file_bytes=size, header_bytes=H, block_bytes=B, size_after=after,
+                          complete_steps=(size - H) / B, map_offset=int(mm.offset), map_itemsize=int(mm.dtype.itemsize), map_len=int(mm.shape[0]))
+            del f
+            return ok, detail
+        finally:
+            import shutil
+            shutil.rmtree(td, ignore_errors=True)
+
+
+CONTRACTS = [UamivReadHeader(ns, mode, whole) for ns in (1, 2) for mode in ('r', 'r+') for whole in (False, True)]
+
 
 
 def bounded(tier, seed):
@@ -13,8 +191,19 @@ def bounded_replay(p):
     return False, p.get('what')
 
 META = dict(
-    level='exploration',
-    technique='bounded run-time contract: every prefix of small generated files',
-    text='every proper prefix of generated files either raises or exposes only complete leading steps identical to the full file.',
-    note='bounded only.',
-    assumptions=[], explanation='')
+    level='other',
+    technique='uamiv (memory-mapped) __readheader proved by pyvc over an abstract file of symbolic size (structured-dtype layout model, numpy.memmap '
+              'size rule as trusted model); every other reader and the data/time-flag equality by bounded run-time contract over the prefixes of generated files',
+    text='Proved for any grid size, layer count, projection code and ANY file length (1 or 2 species; modes r and, with complete header records, r+): '
+         'whenever the uamiv memory-mapped reader accepts a file, the file holds exactly header + TSTEP whole time blocks, the data map covers exactly '
+         'those blocks, starts at the published offset and its record dtype has the size of the documented word formula, and the file was not extended; a '
+         'file cut anywhere else raises ValueError; a whole file is never rejected. Bounded: every prefix (quick: every third byte plus every record '
+         'boundary +-1; thorough: every byte) of small uamiv / temperature / one3d / height_pressure files either raises or shows only complete leading steps '
+         'bit-identical to the full file, and a 30-step file cut near its end in modes r, c, r+.',
+    note='The proof covers the step-count inference (the mechanism named by the property) of the uamiv reader; contents of the mapped blocks (values, time flags) '
+         'and the headerless meteorological readers and bpch are bounded only. numpy.memmap / numpy.dtype are trusted models pinned by the bounded harness. '
+         'r+ cuts inside the header records (numpy extends the file there) are bounded only.',
+    assumptions=['numpy.dtype packed layout and numpy.memmap size rule as modelled in pyvc/layout.py (trusted)',
+                 'header fields are arbitrary but fixed symbols; nspec is 1 or 2 (one contract instance each)',
+                 'float(size-offset)/4./block is exact real arithmetic (A-REAL); int() truncates'],
+    explanation='mixed: discharged obligations for uamiv.__readheader + bounded exploration of prefixes for all readers')
